@@ -11,6 +11,12 @@ def dump(n):
     return ast.dump(n, include_attributes=True)
 
 
+def code_sig(c):
+    """a code object up to identity: flags, bytecode, names, positions, constants (recursively)"""
+    consts = tuple(code_sig(k) if hasattr(k, "co_code") else (type(k).__name__, repr(k)) for k in c.co_consts)
+    return (c.co_name, c.co_flags, c.co_code, c.co_names, c.co_varnames, c.co_freevars, c.co_cellvars, c.co_firstlineno, tuple(c.co_positions()), consts)
+
+
 def check_one(src, path, hook, tc, want_coq, shared=None):
     problems = []
     try:
@@ -41,6 +47,15 @@ def check_one(src, path, hook, tc, want_coq, shared=None):
         doc0 = code0.co_consts[0] if ast.get_docstring(tree0, clean=False) is not None else None
         if ast.get_docstring(tree0, clean=False) != ast.get_docstring(tree1, clean=False):
             problems.append("module docstring changed: %r -> %r" % (ast.get_docstring(tree0, clean=False), ast.get_docstring(tree1, clean=False)))
+        # (a') the code object the import hook's LOADER makes for this source is the compilation of that very tree:
+        # same flags (no __future__ feature inherited from jaxtyping's own modules), same code, same line table
+        data = src if isinstance(src, bytes) else src.encode("utf-8")
+        try:
+            code_l = hook._JaxtypingLoader("m", path, typechecker=tc).source_to_code(data, path)
+            if code_sig(code_l) != code_sig(code1):
+                problems.append("the loader's source_to_code differs from compiling the transformed tree (flags %x vs %x)" % (code_l.co_flags, code1.co_flags))
+        except (SyntaxError, ValueError, RecursionError) as e:
+            problems.append("the loader's source_to_code fails: %s: %s" % (type(e).__name__, e))
     except (SyntaxError, ValueError) as e:
         problems.append("transformed module does not compile: %s: %s" % (type(e).__name__, e))
     # (b) independent strip: remove exactly the documented additions, then the trees must be identical
